@@ -143,8 +143,12 @@ PROPS = {
         ],
     ),
     "C14": dict(
-        coq_targets=["Props/C14.vo"],
+        coq_targets=["Props/C14.vo", "Model/Uplinks.vo"],
         harness=[dict(pkg="h_agent", bin="c14", cases={"quick": 300, "thorough": 4000},
+                      checkers=["corr", "oracle"], timeout=2400),
+                 # the per-remote uplinks of a supply lane (queue while a write is in flight, syncs interleaved):
+                 # the Uplinks model and its protocol oracle carry the supply clause (exactly once, in order)
+                 dict(pkg="h_agent", bin="c04", cases={"quick": 300, "thorough": 2500},
                       checkers=["corr", "oracle"], timeout=2400)],
         allowed_axioms=[],
         trusted_base=[
@@ -154,6 +158,7 @@ PROPS = {
             "hooks: swimos_runtime feature `verif` re-exports external_links_task, LinksTaskState, LinksTaskConfig, NoReport, ExternalLinkRequest, CommandChannelRequest and the backpressure strategies",
         ],
         assumptions=[
+            "the uplink side of supply lanes (Uplinks::replace_and_pop, supply arm) is exercised through the harness shared with C04 (Model/Uplinks.v: correspondence + protocol oracle with the supply clause: every item exactly once, in order, per linked remote); its theorems are stated under C04 / C01 / C03",
             "theorems cover SupplyLane, SupplyBackpressure and CommandOutput/CmdChannelWriter under every order of appends, channel openings and write completions; the command path of the real external_links_task is tied to the model by correspondence + oracle (targets stalled, opened late, drained) (partial)",
             "not modelled: the supply uplink's re-queueing inside the write task (Uplinks / has_data loop), dispatch of command envelopes to command-lane handlers (read task needs_flush + agent model loop), channel failures / retries / timeouts of the ad hoc outputs",
             "body lengths below 2^64 for the supply buffer",
